@@ -198,7 +198,50 @@ pub fn gen_prog(t: &mut Tape, cfg: &GenCfg) -> Prog {
             break;
         }
     }
+    // Drawn last, so that the statements decoded from a given tape prefix do
+    // not depend on it: one program in six runs its whole text more than once
+    // (called twice, as the body of a three-turn loop, or re-entered while an
+    // outer activation of the same text is suspended half way).
+    if g.t.chance(1, 6) {
+        stmts = replayed(stmts, g.t.pick(4), g.t.pick(8));
+    }
     Prog::new(stmts)
+}
+
+pub fn replay_mode(p: &Prog) -> Option<&'static str> {
+    match p.stmts.first().map(|s| &s.k) {
+        Some(SK::FuncDecl(n, ..)) if n == "run_" => Some("called twice"),
+        Some(SK::FuncDecl(n, ..)) if n == "again_" => Some("re-entered"),
+        Some(SK::For(Expr{k: EK::Var(n), ..}, ..)) if n == "rep_" => Some("three loop turns"),
+        Some(SK::Declare(Expr{k: EK::Var(n), ..}, _)) if n == "keep_" => Some("closure per turn, called later"),
+        _ => None,
+    }
+}
+
+// The same program text evaluated several times.
+pub fn replayed(stmts: Vec<Stmt>, mode: usize, cut: usize) -> Vec<Stmt> {
+    match mode {
+        0 => vec![fn_decl("run_", vec![], false, stmts), expr_stmt(call(var("run_"), vec![])), expr_stmt(call(var("run_"), vec![]))],
+        1 => vec![for_(var("rep_"), list(vec![int(0), int(1), int(2)]), stmts)],
+        2 => {
+            // Re-entered: the inner activation runs between two statements
+            // of the outer one, whose declarations are live meanwhile.
+            let k = cut.min(stmts.len());
+            let mut body: Vec<Stmt> = stmts[..k].to_vec();
+            body.push(if_(bin(Op::Gt, var("n_"), int(0)), vec![expr_stmt(call(var("again_"), vec![bin(Op::Sub, var("n_"), int(1))]))], None));
+            body.extend(stmts[k..].iter().cloned());
+            vec![fn_decl("again_", vec![var("n_")], false, body), expr_stmt(call(var("again_"), vec![int(2)]))]
+        },
+        _ => {
+            // A closure per turn, kept and called after the loop.
+            vec![
+                declare(var("keep_"), list(vec![])),
+                for_(var("rep_"), list(vec![int(0), int(1)]), vec![op_assign(var("keep_"), Op::Sum, list(vec![func(vec![], false, stmts)]))]),
+                for_(list(vec![var("_"), var("g_")]), var("keep_"), vec![expr_stmt(call(var("g_"), vec![]))]),
+                expr_stmt(call(index(var("keep_"), int(0)), vec![])),
+            ]
+        },
+    }
 }
 
 impl Gen<'_> {
